@@ -1894,14 +1894,20 @@ def collections_of(cx, term):
     return out
 
 
-def value_under(cx, decide):
+def value_under(cx, decide, past_refusals=False):
     """the values the function can return on the paths described by ``decide`` (see T.truth): return statements whose guards
-    contradict the scenario are dropped, gates and conditional expressions with a decided test are resolved"""
+    contradict the scenario are dropped, gates and conditional expressions with a decided test are resolved.  With
+    ``past_refusals`` the conditions that are merely the negation of an earlier ``raise`` are not held against a return (the
+    question is what is returned when nothing was refused)"""
     out = []
     for ev in cx.events:
         if ev.kind != "return":
             continue
-        if any(T.truth(g[0], decide) is (not g[1]) for g in ev.raw_guards):
+        keep = set(range(len(ev.raw_guards)))
+        if past_refusals:
+            real = own_guards(cx, ev, kinds=("raise",))
+            keep = set(i for i, g in enumerate(ev.guards) if g in real)
+        if any(T.truth(g[0], decide) is (not g[1]) for i, g in enumerate(ev.raw_guards) if i in keep):
             continue
         v = _resolve_joins(cx, T.select(ev.raw, decide), decide, ev.seq)
         if v not in out:
